@@ -36,6 +36,7 @@ LEVEL_TEXT = (
     "pad() takes the face branch with the caller's widths and the rule in force. The statement over all decompositions follows only together with "
     "xarray's semantics and is not executed."
 )
+LEVEL_TEXT += ' Also decided (sixth seeded round): a face that is the source of two links of different kind in one call hands each link its own cells (all ordered pairs of distinct link kinds on both sides); single swapping links on a three-axis grid whose third, padded axis is declared first.'
 LEVEL_NOTE = "Trusted: xarray semantics; orientation-map geometry. Corner cells belong to C12."
 
 RULE_MAP = {"R05.1": "R03.1", "R05.2": "R03.1", "R05.3": "R03.1", "R05.4": "R03.2", "R05.5": "R03.1", "R05.6": "R03.2"}
